@@ -21,17 +21,17 @@ var pdataPkgRels = []string{"pdata/pcommon", "pdata/plog", "pdata/pmetric", "pda
 	"pdata/plog/plogotlp", "pdata/pmetric/pmetricotlp", "pdata/ptrace/ptraceotlp", "pdata/pprofile/pprofileotlp"}
 
 type pdataInfo struct {
-	p        *Prog
-	pkgs     []*packages.Package // API packages
-	internal *packages.Package
-	all      []*packages.Package // API + internal
-	funcs    []*ssa.Function     // all source functions of `all`
-	inScope  map[*ssa.Function]bool
-	wrappers map[*types.Named]bool
-	writeSum map[*ssa.Function]map[int]bool // params through which f writes payload without own dominating assert
+	p         *Prog
+	pkgs      []*packages.Package // API packages
+	internal  *packages.Package
+	all       []*packages.Package // API + internal
+	funcs     []*ssa.Function     // all source functions of `all`
+	inScope   map[*ssa.Function]bool
+	wrappers  map[*types.Named]bool
+	writeSum  map[*ssa.Function]map[int]bool // params through which f writes payload without own dominating assert
 	assertSum map[*ssa.Function]map[int]bool // params whose state f asserts in its entry block
-	retSum   map[*ssa.Function]int          // wrapper-returning function: index of the param its result's orig derives from (-1 none/fresh, -2 unknown)
-	busy     map[*ssa.Function]bool
+	retSum    map[*ssa.Function]int          // wrapper-returning function: index of the param its result's orig derives from (-1 none/fresh, -2 unknown)
+	busy      map[*ssa.Function]bool
 }
 
 func isWrapperStruct(t types.Type) bool {
